@@ -15,14 +15,14 @@ claimed = {
  "C09": ("real flushToL0/checkAndCompact/compactL0/compactLN/discardStaleEntries/kway merge/recover on symbolic tables, watermark set through the real readMark; lookup-level oracle for every permitted read", "4.C09"),
  "C10": ("real flushToL0/searchLowerBound/Index search/Data.LowerBound/fetch/recover on symbolic sorted tables, symbolic block size and query; brute-force component oracle", "4.C10"),
  "C11": ("Decode(Encode(x)) == x and stability of returned bytes for Data/Index/Footer/Meta/table.Build/WAL with symbolic content; 16-bit boundary lengths (listed known finding)", "4.C11"),
+ "C12": ("writer goroutine(s), a reader transaction and the engine's real flusher/compactor and watermark goroutines under the cooperative runtime: every scheduler pick at blocking points plus bounded preemptions, vector-clock happens-before race monitor over all interpreted loads/stores, panic detection, snapshot oracle on the reader's results; panics confirmed by gated native replay of the schedule, races by the Go race detector", "4.C12"),
  "C13": ("real watermark goroutine under the cooperative runtime, K marks with symbolic 64-bit indices/kinds, reference count oracle; WaitForMark with cancellable context; overflow of the mark channel", "4.C13"),
  "C14": ("C03's harness under the torn-tail storage model: every unsynced file tail cut at every length", "4.C14"),
+ "C15": ("C12's harness without the race monitor: a global state in which an API goroutine is blocked and nothing is runnable is a deadlock; after Close the flusher has stopped and the directory reopens with the complete state", "4.C15"),
  "C16": ("real filter.Build/New/Add/Contains with symbolic key bytes, bit set with symbolic indices (read-over-write), murmur3 as an uninterpreted function of seed and written bytes (real SSA runs for concrete keys)", "4.C16"),
  "C17": ("real skiplist Set/Delete/Get/LowerBound/Scan/All with symbolic keys, values, level coins against a symbolic slot-array sorted map", "4.C17"),
 }
 pending = {
- "C12": "check under construction (race monitor and gated native replay not wired into vcheck yet)",
- "C15": "check under construction (schedule exploration harness not built yet)",
 }
 fixes = subprocess.check_output(["git", "-C", "/repo", "log", "--format=%H %s"]).decode().splitlines()
 fix_commits = [l.split()[0] for l in fixes if l.split(" ", 1)[1].startswith("fix:")]
